@@ -84,6 +84,15 @@ Theorem C15_switch_old_or_new : forall m ds before upd after t r seen,
   seen = lookup m r \/ seen = lookup (rm_step m upd) r.
 Proof. exact switch_old_or_new. Qed.
 
+(* The form the dynamic legs test: when the old and the new list give the same verdict, a request
+   racing the switch cannot get the other one. *)
+Theorem C15_switch_equal_verdict : forall (V : Type) (verdict : list rule -> V) (v : V) m ds before upd after t r seen,
+  wf_rm m -> Forall (fun rd => snd rd = DIdle) ds ->
+  only_dec before -> only_dec after ->
+  nth_error (snd (fst (srun (m, ds) [m] (before ++ upd :: after)))) t = Some (r, DDone seen) ->
+  verdict (lookup m r) = v -> verdict (lookup (rm_step m upd) r) = v -> verdict seen = v.
+Proof. exact switch_equal_verdict. Qed.
+
 (* Updating the rules of one resource never changes the list another resource is decided by. *)
 Theorem C15_switch_frame_load : forall m r l r', wf_rm m -> r' <> r -> lookup (load_res m r l) r' = lookup m r'.
 Proof. exact lookup_load_res_other. Qed.
@@ -184,6 +193,13 @@ Example C15_switch_needs_single_read :
   d4 = DDone [10; 40] /\ [10; 40] <> lookup m0 1 /\ [10; 40] <> lookup m1 1.
 Proof. vm_compute. split; [reflexivity | split; intro H; inversion H]. Qed.
 
+(* ... and the verdict flips: rules 20 and 30 block, both lists block, the mixture passes
+   (the shape of the lists the stress and the parked-switch legs use) *)
+Example C15_switch_reread_flips_verdict :
+  let blocks := existsb (fun x : rule => (Z.eqb x 20 || Z.eqb x 30)%bool) in
+  blocks (lookup ex_rm 1) = true /\ blocks (lookup (load_res ex_rm 1 [30; 40]) 1) = true /\ blocks [10; 40] = false.
+Proof. vm_compute. repeat split; reflexivity. Qed.
+
 (* necessity of "never written after publication": an in-place write to a published slice
    is seen by a decision that already started *)
 Example C15_switch_needs_immutable_slices :
@@ -219,6 +235,7 @@ Print Assumptions C15_lock_leak_exact.
 Print Assumptions C15_region_checker_sound.
 Print Assumptions C15_switch_atomic.
 Print Assumptions C15_switch_old_or_new.
+Print Assumptions C15_switch_equal_verdict.
 Print Assumptions C15_switch_frame_load.
 Print Assumptions C15_switch_frame_clear.
 Print Assumptions C15_switch_load_all.
